@@ -34,15 +34,15 @@ func specWordCode(b byte) bool {
 //@   callsite newToken requires[C11] a-word-is-the-text-at-its-position: arg1 == IDENTIFIER || (arg1 != UNKNOWN && arg1 == specKeywordType(arg0)) ==> len(arg0) >= 1 && hasPrefix(rest(), arg0)
 //@   callsite newToken requires[C11] a-word-starts-with-a-letter-or-underscore: arg1 == IDENTIFIER || (arg1 != UNKNOWN && arg1 == specKeywordType(arg0)) ==> len(rest()) >= 1 && specWordCode(rest()[0]) && !(rest()[0] >= 48 && rest()[0] <= 57)
 //@   callsite newToken requires[C11] words-are-maximal: arg1 == IDENTIFIER || (arg1 != UNKNOWN && arg1 == specKeywordType(arg0)) ==> len(arg0) == len(rest()) || !specWordCode(rest()[len(arg0)])
-//@   loop 3 invariant[C11] word-so-far: ogI <= i && i <= len(src()) && identifier == src()[ogI:i]
-//@   loop 1 invariant[C11,C12,C13] index-within-normalised-source: 0 <= i && i <= len(strings.ReplaceAll(source, "\r\n", "\n"))
-//@   loop 1 invariant[C11,C12] no-blank-or-comment-token: forall(k, 0, len(tokens), tokens[k].tokenType != SPACE && tokens[k].tokenType != COMMENT && tokens[k].tokenType != UNKNOWN)
-//@   loop 1 invariant[C11] rows-start-at-one: row >= 1
-//@   loop 1 invariant[C11] the-tables-are-the-grammar: forall(k, 0, len(nonAlphabeticTokens), specSymbolType(nonAlphabeticTokens[k].value) != UNKNOWN && nonAlphabeticTokens[k].tokenType == specSymbolType(nonAlphabeticTokens[k].value)) && forallstr(s, has(keywords, s) == (specKeywordType(s) != UNKNOWN) && (has(keywords, s) ==> get(keywords, s) == specKeywordType(s)))
-//@   loop 1 invariant[C11] identifiers-are-not-reserved-words-and-symbols-are-what-they-spell: forall(k, 0, len(tokens), (tokens[k].tokenType == IDENTIFIER ==> specKeywordType(tokens[k].value) == UNKNOWN) && (specIsSymbolType(tokens[k].tokenType) ==> specSymbolType(tokens[k].value) == tokens[k].tokenType))
-//@   loop 2 invariant[C11,C13] index-within-normalised-source: 0 <= i && i <= len(strings.ReplaceAll(source, "\r\n", "\n"))
-//@   loop 2 exit[C11] scanner-gives-up-only-at-end-of-input: i >= len(strings.ReplaceAll(source, "\r\n", "\n"))
-//@   loop 3 invariant[C11,C13] index-within-normalised-source: 0 <= i && i <= len(strings.ReplaceAll(source, "\r\n", "\n"))
+//@   loop @"for" invariant[C11] word-so-far: ogI <= i && i <= len(src()) && identifier == src()[ogI:i]
+//@   loop @"for i < sourceLength#1" invariant[C11,C12,C13] index-within-normalised-source: 0 <= i && i <= len(strings.ReplaceAll(source, "\r\n", "\n"))
+//@   loop @"for i < sourceLength#1" invariant[C11,C12] no-blank-or-comment-token: forall(k, 0, len(tokens), tokens[k].tokenType != SPACE && tokens[k].tokenType != COMMENT && tokens[k].tokenType != UNKNOWN)
+//@   loop @"for i < sourceLength#1" invariant[C11] rows-start-at-one: row >= 1
+//@   loop @"for i < sourceLength#1" invariant[C11] the-tables-are-the-grammar: forall(k, 0, len(nonAlphabeticTokens), specSymbolType(nonAlphabeticTokens[k].value) != UNKNOWN && nonAlphabeticTokens[k].tokenType == specSymbolType(nonAlphabeticTokens[k].value)) && forallstr(s, has(keywords, s) == (specKeywordType(s) != UNKNOWN) && (has(keywords, s) ==> get(keywords, s) == specKeywordType(s)))
+//@   loop @"for i < sourceLength#1" invariant[C11] identifiers-are-not-reserved-words-and-symbols-are-what-they-spell: forall(k, 0, len(tokens), (tokens[k].tokenType == IDENTIFIER ==> specKeywordType(tokens[k].value) == UNKNOWN) && (specIsSymbolType(tokens[k].tokenType) ==> specSymbolType(tokens[k].value) == tokens[k].tokenType))
+//@   loop @"for i < sourceLength#2" invariant[C11,C13] index-within-normalised-source: 0 <= i && i <= len(strings.ReplaceAll(source, "\r\n", "\n"))
+//@   loop @"for i < sourceLength#2" exit[C11] scanner-gives-up-only-at-end-of-input: i >= len(strings.ReplaceAll(source, "\r\n", "\n"))
+//@   loop @"for" invariant[C11,C13] index-within-normalised-source: 0 <= i && i <= len(strings.ReplaceAll(source, "\r\n", "\n"))
 //@   ensures[C11,C13] always-ends-with-eof: err == nil ==> len(result0) >= 1 && result0[len(result0) - 1].tokenType == EOF && result0[len(result0) - 1].value == ""
 //@   ensures[C11] identifiers-are-not-reserved-words-and-symbols-are-what-they-spell: forall(k, 0, len(result0) - 1, (result0[k].tokenType == IDENTIFIER ==> specKeywordType(result0[k].value) == UNKNOWN) && (specIsSymbolType(result0[k].tokenType) ==> specSymbolType(result0[k].value) == result0[k].tokenType))
 //@   ensures[C11,C12] no-blank-or-comment-token: forall(k, 0, len(result0) - 1, result0[k].tokenType != SPACE && result0[k].tokenType != COMMENT && result0[k].tokenType != UNKNOWN)
